@@ -92,7 +92,7 @@ func buildTagFields(rt reflect.Type, out, pretty, embedded, omitEmpty bool) (fa 
 	for i := rt.NumField() - 1; 0 <= i; i-- {
 		f := rt.Field(i)
 		name := []byte(f.Name)
-		if len(name) == 0 || !f.IsExported() {
+		if len(name) == 0 || (!f.IsExported() && !(embeddedStruct(&f) && !out)) {
 			continue
 		}
 		if embeddedStruct(&f) && !out {
@@ -146,7 +146,7 @@ func buildExactFields(rt reflect.Type, out, pretty, embedded, omitEmpty bool) (f
 	for i := rt.NumField() - 1; 0 <= i; i-- {
 		f := rt.Field(i)
 		name := []byte(f.Name)
-		if len(name) == 0 || !f.IsExported() {
+		if len(name) == 0 || (!f.IsExported() && !(embeddedStruct(&f) && !out)) {
 			continue
 		}
 		if embeddedStruct(&f) && !out {
@@ -174,7 +174,7 @@ func buildLowFields(rt reflect.Type, out, pretty, embedded, omitEmpty bool) (fa 
 	for i := rt.NumField() - 1; 0 <= i; i-- {
 		f := rt.Field(i)
 		name := []byte(f.Name)
-		if len(name) == 0 || !f.IsExported() {
+		if len(name) == 0 || (!f.IsExported() && !(embeddedStruct(&f) && !out)) {
 			continue
 		}
 		if embeddedStruct(&f) && !out {
